@@ -165,3 +165,40 @@ Definition chk_case (has_nan staged : bool) (lg : list Z) (t k p mp t' k' p' mp'
         ++ [ (has_nan && staged) || chk_sample tab t k p mp lg r id e ]) draws.
 
 Definition all_true (l : list bool) : bool := forallb (fun b => b) l.
+
+(** ** grammar-constrained Sample.  [rejected] lists the ids the real grammar rejects (read off the implementation by
+    VerifGrammarMask).  The returned token is compared by value on the logits it was drawn from: the raw logits when the
+    first pick was accepted, the *masked* logits (each id paired with its own logit, rejected ids -Inf) on the re-sample;
+    the number of draws the call consumed must agree too. *)
+Definition rej_of (rejected : list Z) (i : Z) : bool := existsb (Z.eqb i) rejected.
+
+(** result and number of draws in one pass (= (Sample_grammar, grammar_draws), CorrProofs.grammar_both_eq) *)
+Definition grammar_both (E : sf -> sf) (pr : params) (rej : Z -> bool) (logits : list sf) (r1 r2 : sf) : res * Z :=
+  match logits with
+  | [] => (ErrEmpty, 0)
+  | _ =>
+      let ts := enumerate 0 logits in
+      let g := feq (p_temp pr) fzero in
+      match sample E pr ts r1 with
+      | Tok t => if first_pick_rejected rej t then (sample E pr (mask rej ts) r2, if g then 0 else 2)
+                 else (Tok t, if g then 0 else 1)
+      | e => (e, if g then 0 else 1)
+      end
+  end.
+
+(** one grammar case: all calls (r1, r2, id, err, used) against the same logits / parameters / rejected set *)
+Definition chk_grammar (tab : list (Z * Z)) (t k p mp : Z) (logits rejected : list Z) (calls : list (Z * Z * Z * bool * Z)) : bool :=
+  let pr := new_sampler (fb t) k (fb p) (fb mp) in
+  let ls := map fb logits in
+  let rej := rej_of rejected in
+  let ms := mask_logits rej 0 ls in
+  let E := E_tab tab in
+  forallb (fun c => let '(r1, r2, id, err, used) := c in
+    let '(m, u) := grammar_both E pr rej ls (fb r1) (fb r2) in
+    let slow := (u =? 2) || ((u =? 0) && match sample E pr (enumerate 0 ls) (fb r1) with Tok t0 => first_pick_rejected rej t0 | _ => false end) in
+    (u =? used) &&
+    match m with
+    | Tok tk => negb err && same_logit (if slow then ms else ls) id (tid tk) && (negb slow || negb (rej id))
+    | ErrNaN | ErrEmpty => err
+    | Panic => false
+    end) calls.
